@@ -27,6 +27,7 @@ import (
 	"encoding/json"
 	"fmt"
 	"reflect"
+	"strings"
 
 	extv1 "k8s.io/apiextensions-apiserver/pkg/apis/apiextensions/v1"
 	metav1 "k8s.io/apimachinery/pkg/apis/meta/v1"
@@ -67,8 +68,18 @@ type c02CrdFault struct {
 	O string `json:"o"` // fail conflict crashBefore crashAfter
 }
 
+// c02CrdEnvAct: a third party writes the CRD with the derived name immediately before API call K
+// of this reconcile (simstore Before hook): adopt (its own controller reference replaces the
+// XRD's), edit (the spec becomes the outdated body), create (a CRD of its own where there
+// is none), remove (delete it; only generated for CRDs without finalizer).
+type c02CrdEnvAct struct {
+	K   int    `json:"k"`
+	Act string `json:"act"`
+}
+
 type c02CrdRound struct {
-	Fault *c02CrdFault `json:"fault,omitempty"`
+	Fault *c02CrdFault  `json:"fault,omitempty"`
+	Env   *c02CrdEnvAct `json:"env,omitempty"`
 }
 
 type c02CrdScn struct {
@@ -366,19 +377,39 @@ func c02CrdRun(s c02CrdScn) (c02CrdObs, []Mon) {
 		}
 	}
 
-	// the foreign CRD, byte for byte, as it was when the scenario started
+	// the foreign CRD, byte for byte, as it was when the scenario started (re-based whenever the
+	// third party of the scenario writes the CRD: "controlled by another owner at this moment")
 	foreign := s.Crd.Present && s.Crd.Ctrl == "other"
 	want := st.Snapshot()[crdKey]
 	var wantObj *unstructured.Unstructured
 	if foreign {
 		wantObj = st.Peek(c02CrdCRDGVK.GroupKind(), "", c02CrdName(s))
 	}
+	rebase := func() {
+		cur := st.Peek(c02CrdCRDGVK.GroupKind(), "", c02CrdName(s))
+		foreign = false
+		if cur != nil {
+			if c := metav1.GetControllerOf(cur); c != nil && string(c.UID) != c02CrdXRDUID {
+				foreign = true
+			}
+		}
+		want = st.Snapshot()[crdKey]
+		wantObj = cur
+	}
+	// window of the unchanged code (reported with its own signature): the deletion branch's
+	// Delete of a CRD that this reconcile's own Get returned controlled by the XRD and that was
+	// taken over since
+	sawOwn := false   // this reconcile's latest Get of the CRD returned it controlled by the XRD
+	envSince := false // the third party wrote the CRD after that Get
 	check := func(at string) {
 		if !foreign {
 			return
 		}
 		got, ok := st.Snapshot()[crdKey]
 		switch {
+		case !ok && sawOwn && envSince && strings.Contains(at, "(delete CRD/"):
+			mon("C02:crd-deleted-after-taken-over-since-read", "the CustomResourceDefinition "+c02CrdName(s)+" was controlled by the XRD when this reconcile read it, was taken over by another owner since, and was deleted by "+at+" (Delete carries no precondition)")
+			rebase()
 		case !ok:
 			mon("C02:crd-foreign-deleted", "the CustomResourceDefinition "+c02CrdName(s)+" controlled by another owner is gone after "+at)
 		case got != want:
@@ -386,6 +417,9 @@ func c02CrdRun(s c02CrdScn) (c02CrdObs, []Mon) {
 			switch {
 			case !reflect.DeepEqual(cur.GetOwnerReferences(), wantObj.GetOwnerReferences()):
 				mon("C02:crd-foreign-adopted", "the owner references of the CustomResourceDefinition "+c02CrdName(s)+" controlled by another owner were rewritten by "+at+": "+mustJSON(cur.GetOwnerReferences()))
+			case cur.GetDeletionTimestamp() != nil && wantObj.GetDeletionTimestamp() == nil && sawOwn && envSince && strings.Contains(at, "(delete CRD/"):
+				mon("C02:crd-deleted-after-taken-over-since-read", "the CustomResourceDefinition "+c02CrdName(s)+" was controlled by the XRD when this reconcile read it, was taken over by another owner since, and was marked for deletion by "+at+" (Delete carries no precondition)")
+				rebase()
 			case cur.GetDeletionTimestamp() != nil && wantObj.GetDeletionTimestamp() == nil:
 				mon("C02:crd-foreign-deleted", "the CustomResourceDefinition "+c02CrdName(s)+" controlled by another owner was marked for deletion by "+at)
 			default:
@@ -407,11 +441,35 @@ func c02CrdRun(s c02CrdScn) (c02CrdObs, []Mon) {
 				return OK
 			}
 		}
+		sawOwn, envSince = false, false
+		if rd.Env != nil {
+			e := *rd.Env
+			st.Before = func(c CallInfo) {
+				if c.Index != e.K {
+					return
+				}
+				c02CrdAct(st, s, e.Act)
+				envSince = true
+				rebase()
+			}
+		}
+		foreignAtStart := foreign
 		st.After = func(c CallInfo) {
 			d := fmt.Sprintf("call %d (%s %s/%s)", c.Index, c.Verb, c02CrdKind(c.GK), c.Name)
+			window := foreign && sawOwn && envSince && c.Verb == "delete"
 			check(d)
-			if foreign && c.IsWrite() && c.Applied && !c.DryRun && c.GK == c02CrdCRDGVK.GroupKind().String() && c.Name == c02CrdName(s) {
+			onCRD := c.GK == c02CrdCRDGVK.GroupKind().String() && c.Name == c02CrdName(s)
+			if foreign && !window && c.IsWrite() && c.Applied && !c.DryRun && onCRD {
 				mon("C02:crd-write-to-foreign", "an applied write was addressed to the CustomResourceDefinition controlled by another owner: "+d)
+			}
+			if onCRD && c.Verb == "get" && c.Outcome == "ok" {
+				cur := st.Peek(c02CrdCRDGVK.GroupKind(), "", c02CrdName(s))
+				sawOwn, envSince = false, false
+				if cur != nil && c.Err == "" {
+					if o := metav1.GetControllerOf(cur); o != nil && string(o.UID) == c02CrdXRDUID {
+						sawOwn = true
+					}
+				}
 			}
 		}
 		_, rv0 := c02CrdView(st, s, rendered, "")
@@ -430,6 +488,7 @@ func c02CrdRun(s c02CrdScn) (c02CrdObs, []Mon) {
 			mon("C02:panic", p)
 		}
 		st.After = nil
+		st.Before = nil
 		crashed := st.Crashed()
 
 		o := c02CrdRoundObs{Calls: []string{}}
@@ -460,11 +519,57 @@ func c02CrdRun(s c02CrdScn) (c02CrdObs, []Mon) {
 		// the conflict must surface: a reconcile of a live XRD that meets a CRD controlled by
 		// somebody else must not report plain success
 		live := xrd0 != nil && xrd0.GetDeletionTimestamp() == nil && renderable
-		if foreign && live && o.Res == "ok" {
+		if foreignAtStart && rd.Env == nil && live && o.Res == "ok" {
 			mon("C02:crd-conflict-not-surfaced", "the "+s.Rec+" reconciler reported success although the CustomResourceDefinition "+c02CrdName(s)+" is controlled by another owner")
 		}
 	}
 	return obs, mons
+}
+
+// c02CrdAct performs the third party's write on the CRD with the derived name.
+func c02CrdAct(st *Store, s c02CrdScn, act string) {
+	gk, name := c02CrdCRDGVK.GroupKind(), c02CrdName(s)
+	switch act {
+	case "adopt":
+		st.Mutate(gk, "", name, func(u *unstructured.Unstructured) {
+			if c := metav1.GetControllerOf(u); c != nil && string(c.UID) != c02CrdXRDUID {
+				return
+			}
+			refs := []metav1.OwnerReference{c02CrdForeignRef("xrd2")}
+			for _, r := range u.GetOwnerReferences() {
+				if r.Controller == nil || !*r.Controller {
+					refs = append(refs, r)
+				}
+			}
+			u.SetOwnerReferences(refs)
+		})
+	case "edit":
+		// somebody else edits the spec: the body becomes the "old" one (no-op when it is already)
+		rs := s
+		rs.Xrd.Claim = true
+		if old := c02CrdRender(rs, "old"); old != nil {
+			m, _ := runtime.DefaultUnstructuredConverter.ToUnstructured(old)
+			want := normalize(map[string]any{"apiVersion": "apiextensions.k8s.io/v1", "kind": "CustomResourceDefinition", "spec": m["spec"]})
+			st.Mutate(gk, "", name, func(u *unstructured.Unstructured) {
+				if c02CrdSpecJSON(u.Object) == c02CrdSpecJSON(want) {
+					return // already the outdated body: nothing to edit
+				}
+				u.Object["spec"] = want["spec"]
+			})
+		}
+	case "create":
+		if st.Peek(gk, "", name) == nil {
+			cs := s
+			cs.Crd = c02CrdCRD{Present: true, Ctrl: "other", Foreign: "xrd2", Old: true, Est: true}
+			if crd := c02CrdBuildCRD(cs); crd != nil {
+				st.Seed(crd)
+			}
+		}
+	case "remove":
+		if u := st.Peek(gk, "", name); u != nil && len(u.GetFinalizers()) == 0 {
+			st.Remove(gk, "", name)
+		}
+	}
 }
 
 // ---------------------------------------------------------------- generator
@@ -510,6 +615,17 @@ func c02CrdGen(r *Rng) c02CrdScn {
 		if r.Chance(1, 2) {
 			rd.Fault = &c02CrdFault{K: r.Intn(6), O: Pick(r, []string{"fail", "conflict", "crashBefore", "crashAfter"})}
 		}
+		// a concurrent writer of the CRD between two calls of this reconcile
+		if r.Chance(2, 5) {
+			acts := []string{"adopt", "adopt", "adopt", "edit", "create"}
+			if !s.Crd.Fin {
+				acts = append(acts, "remove")
+			}
+			rd.Env = &c02CrdEnvAct{K: r.Intn(7), Act: Pick(r, acts)}
+			if rd.Fault != nil && r.Chance(1, 2) {
+				rd.Fault = nil
+			}
+		}
 		s.Rounds = append(s.Rounds, rd)
 	}
 	return s
@@ -538,6 +654,13 @@ func c02CrdCls(s c02CrdScn, obs c02CrdObs) string {
 			c += "/same"
 		}
 	}
+	env := ""
+	for _, rd := range s.Rounds {
+		if rd.Env != nil {
+			env = fmt.Sprintf("/env=%s@%d", rd.Env.Act, rd.Env.K)
+			break
+		}
+	}
 	f := "nofault"
 	for i, rd := range s.Rounds {
 		if rd.Fault != nil && i < len(obs.Rounds) && rd.Fault.K < len(obs.Rounds[i].Calls) {
@@ -549,5 +672,5 @@ func c02CrdCls(s c02CrdScn, obs c02CrdObs) string {
 	if len(obs.Rounds) > 0 {
 		res = obs.Rounds[0].Res
 	}
-	return fmt.Sprintf("%s/xrd=%s/crd=%s/%s/res0=%s", s.Rec, x, c, f, res)
+	return fmt.Sprintf("%s/xrd=%s/crd=%s/%s/res0=%s%s", s.Rec, x, c, f, res, env)
 }
